@@ -39,7 +39,7 @@ NOT_MODELLED = ['reference images, parenthesised reference titles', 'raw HTML', 
 def strategy(tier):
     return st.one_of(
         st.fixed_dictionaries({'kind': st.just('model'), 'doc': gdoc.document(CFG_MMD), 'smart': st.booleans(), 'compat': st.just(False),
-                               'collide': st.sampled_from([0, 0, 1, 2])}),
+                               'collide': st.sampled_from([0, 0, 1, 2]), 'nolabels': st.sampled_from([False, False, False, True])}),
         st.fixed_dictionaries({'kind': st.just('model'), 'doc': gdoc.document(CFG_COMPAT), 'smart': st.booleans(), 'compat': st.just(True)}),
         st.fixed_dictionaries({'kind': st.just('comp'), 'doc': gdoc.document(CFG_COMP), 'smart': st.booleans(), 'compat': st.booleans()}),
     )
@@ -130,7 +130,8 @@ def check(case, ctx):
     if doc.pop('angles_escaped'):
         ctx.cls('excluded_known_angle_pair')
     doc['meta'] = None
-    ext = (EXT['COMPAT'] | EXT['NO_LABELS'] if compat else EXT['NOTES']) | (EXT['SMART'] if smart else 0) | EXT['SNIPPET']
+    nolabels = bool(case.get('nolabels')) and not compat
+    ext = (EXT['COMPAT'] | EXT['NO_LABELS'] if compat else EXT['NOTES']) | (EXT['SMART'] if smart else 0) | EXT['SNIPPET'] | (EXT['NO_LABELS'] if nolabels else 0)
     src = gdoc.ser_doc(doc)
     if KEYLINE.match(src.split('\n')[0]) and not compat:
         doc['blocks'] = [['para', [[['t', 'opening words']]], 'nl']] + doc['blocks']
@@ -141,7 +142,9 @@ def check(case, ctx):
     got = w.convert(src, 'html', ext).text
     kinds = gdoc.block_kinds(doc['blocks'])
     if case['kind'] == 'model':
-        exp = htmlmodel.document(doc, smart=smart, compat=compat)
+        exp = htmlmodel.document(doc, smart=smart, compat=compat, nolabels=nolabels)
+        if nolabels:
+            ctx.cls('mmd_nolabels')
         ctx.cls('model_compat' if compat else 'model_mmd')
         for k in kinds:
             ctx.cls('block_' + k)
